@@ -1283,7 +1283,7 @@ func (e *Env) callExpr(n *ast.CallExpr) Val {
 		vc.streamDecls()
 		return BoolV(app("streamClean", arg(0).S))
 	case "streamLen":
-		vc.declareFun("streamLen", []string{"Int"}, "Int")
+		vc.streamDecls()
 		return IntV(app("streamLen", arg(0).S), nil)
 	case "streamByte":
 		vc.declareFun("streamByte", []string{"Int", "Int"}, "Int")
